@@ -195,6 +195,8 @@ def comp(ast, env):
         return f(*[comp(a, env) for a in ast[2]])
     if k == "mkpartial":   # a partial task as a value
         return elem.partial(ast[1], {n: comp(b, env) for n, b in ast[2].items()})
+    if k == "mkfile":
+        return mkfile(ast[1], ast[2])
     if k == "subrun":
         from redun.scheduler import subrun
 
@@ -219,6 +221,22 @@ def _build(spec):
 
 def _log(name, ast):
     CALLS.append((name, repr(ast)[:80]))
+
+
+FILE_ROOT = {"dir": None}
+
+
+@task(name="mkfile")
+def mkfile(name, content):
+    """Writes a file under the harness scratch root and returns it as a redun File value."""
+    import os
+
+    from redun import File
+
+    path = os.path.join(FILE_ROOT["dir"], name)
+    with open(path, "w") as f:
+        f.write(str(content))
+    return File(path)
 
 
 @task(name="use")
